@@ -79,11 +79,13 @@ def s_name(vc):
     out = vc.call(T + ":_ip_or_dns_name", val)
     ip = is_ip_literal(vc, val)
     enc = idna_encodable(vc, val)
-    # totality: every string must give a general name (KF-C16-1: names that the IDNA codec rejects raise UnicodeError)
-    vc.ensure_kf("total.no_exception", out.ok, "KF-C16-1", And(Not(ip), Not(enc)))
+    # every IP literal and every name the IDNA codec accepts gives a general name; other text raises UnicodeError, which
+    # TlsConfig.get_cert skips for the names it takes from the peer (upstream CN, server address): was KF-C16-1, fixed in 69b3d94fb
+    vc.ensure("total_for_ip_literals_and_idna_names", Implies(Or(ip, enc), out.ok))
     if not out.ok:
         vc.ensure("raises_only_UnicodeError", issubclass(out.raised_type(), UnicodeError))
         vc.ensure("raises_only_for_non_ip", Not(ip))
+        vc.ensure("raises_only_for_text_idna_rejects", Not(enc))
         return
     r = out.result
     if vc.branch(ip):
